@@ -128,6 +128,24 @@ def blueGreenRefusesContinuous (w : World) (r : StepResult) : Bool :=
     else true
   | _, _ => true
 
+/-- the step the status points at replaces every stable pod (partition-style canary) -/
+def fullStep (ro : Rollout) (s : Sub) (wl : WL) : Bool :=
+  match ro.steps[(s.curIdx - 1).toNat]? with
+  | some st => ro.style = .canary && stepHasTraffic st && decide (scaledV st.replicas wl.replicas true ≥ wl.replicas)
+  | none => false
+
+/-- **C04 (stable half)** — a canary step that replaces every stable pod leaves `StepInit` (the batch is
+    handed to the BatchRelease) only with the stable Service un-pinned: no request routed through
+    the stable Service may end at a selector that matches no pod. -/
+def fullStepUnpinsFirst (w : World) (r : StepResult) : Bool :=
+  match w.ro.sub, r.w.ro.sub, w.wl with
+  | some s, some s', some wl =>
+    if inRollingNow w.ro ∧ r.w.ro.reason = .inRolling ∧ w.ro.hasTraffic ∧ wl.consistent ∧ 1 ≤ s.curIdx ∧
+       s.state = .init ∧ s'.state ≠ .init ∧ s'.curIdx = s.curIdx ∧ fullStep w.ro s wl then
+      !r.w.net.stableExists || r.w.net.stableSel.getD "" == ""
+    else true
+  | _, _, _ => true
+
 def stepOracles (w : World) (r : StepResult) : List (String × Bool) :=
   [("C03.enter_routing_gated", enterRoutingGated w r),
    ("C02.advance_gated", advanceGated w r),
@@ -135,6 +153,7 @@ def stepOracles (w : World) (r : StepResult) : List (String × Bool) :=
    ("C02.ready_gated", readyGated w r),
    ("C18.rollout_finalizer_guard", finalizerGuard w r),
    ("C10.rollback_first", rollbackFirst w r),
-   ("C10.bluegreen_refuses_continuous", blueGreenRefusesContinuous w r)]
+   ("C10.bluegreen_refuses_continuous", blueGreenRefusesContinuous w r),
+   ("C04.full_step_unpins_first", fullStepUnpinsFirst w r)]
 
 end RV.Oracle.RolloutSM
